@@ -227,8 +227,15 @@ pub fn parts(id: &'static str, tier: Tier) -> Option<(Vec<Part<Case>>, String)> 
             longer.max_steps = 400;
             longer.max_batch = 3;
             longer.drain = true;
+            // trading toggled between steps (C08's domain includes it): crossed books, re-queues that trade after re-enabling
+            let mut tog = c.clone();
+            tog.toggle_pct = 25;
+            tog.start_off_pct = 25;
+            tog.w_modify = 40;
+            tog.w_new = 50;
+            tog.max_batch = 6;
             Some((
- vec![env_part("env-random-large-volumes", big_vol_cfg(&c, 24), tier.pick(15_000, 300_000)), env_part("env-random-very-long-runs", longer, tier.pick(600, 12_000)), env_part("env-random-long-runs", long, tier.pick(5_000, 120_000)), exhaustive_env_part("exhaustive-batches-of-3", 3, tier.pick(4, 24), false), env_part("env-random-records", c, tier.pick(200_000, 3_000_000))],
+ vec![env_part("env-random-toggles", tog, tier.pick(40_000, 600_000)), env_part("env-random-large-volumes", big_vol_cfg(&c, 24), tier.pick(15_000, 300_000)), env_part("env-random-very-long-runs", longer, tier.pick(600, 12_000)), env_part("env-random-long-runs", long, tier.pick(5_000, 120_000)), exhaustive_env_part("exhaustive-batches-of-3", 3, tier.pick(4, 24), false), env_part("env-random-records", c, tier.pick(200_000, 3_000_000))],
                 format!("{}Oracle: after step k every recorded series (touch prices, side volumes, touch volumes and counts, per-level volumes and counts for each of the L levels, per-step traded volume) has exactly k entries, entry k-1 equals the value read from the live book after the step (bid series vs bid getters), earlier entries are unchanged, and traded volume k-1 equals both the volume logged during the step and the volume of trades time-stamped within it. Non-trivial: a step whose book differs between bid and ask in total volume, touch volume and touch count and has an occupied level >= 1 on both sides.", common),
             ))
         }
@@ -250,9 +257,13 @@ pub fn parts(id: &'static str, tier: Tier) -> Option<(Vec<Part<Case>>, String)> 
             let mut c = EnvGenCfg::base();
             c.overfull = true;
             c.max_steps = 6;
+            c.large_batch_pct = 0;
+            let mut big = c.clone();
+            big.large_batch_pct = 100;
+            big.max_steps = 3;
             Some((
-                vec![env_part("env-overfull-steps", c, tier.pick(12_000, 400_000))],
-                format!("{}Overfull cases: step size 1..4 with up to 4x as many instructions per step, several consecutive steps, so intra-step timestamps run into the next step. Oracle: C08's schedule inference against real plain books replayed with the same (partly repeating) times, model-free view / ledger audits after every step, and after the final drain no resting order may remain (every order is executed). Non-trivial: an overfull step and at least one trade.", common),
+                vec![env_part("env-overfull-large-batches", big, tier.pick(1_500, 40_000)), env_part("env-overfull-steps", c, tier.pick(12_000, 400_000))],
+                format!("{}Overfull cases: step size 1..4 with up to 4x as many instructions per step, several consecutive steps, so intra-step timestamps run into the next step; plus overfull large batches (33..64 instructions in a step of 8..16 time units, Env and MarketEnv<1..4>). Oracle: C08's schedule inference against real plain books replayed with the same (partly repeating) times, model-free view / ledger audits after every step, and after the final drain no resting order may remain (every order is executed). Non-trivial: an overfull step and at least one trade.", common),
             ))
         }
         _ => None,
